@@ -702,6 +702,7 @@ fn add_shadow(a: &mut ShadowStats, b: &ShadowStats) {
     a.atomic_commits_checked += b.atomic_commits_checked;
     a.neglook_unwinds_checked += b.neglook_unwinds_checked;
     a.neglook_group_checks += b.neglook_group_checks;
+    a.capture_reads_checked += b.capture_reads_checked;
     a.epsilon_guard_fired += b.epsilon_guard_fired;
     a.max_depth = a.max_depth.max(b.max_depth);
     a.max_aux = a.max_aux.max(b.max_aux);
@@ -1069,6 +1070,7 @@ pub fn run(opts: &Opts) -> i32 {
             "atomic_commits_bracket_checked": agg.shadow.atomic_commits_checked,
             "negative_lookaround_unwinds_checked": agg.shadow.neglook_unwinds_checked,
             "results_checked_for_captures_surviving_a_negative_lookaround": agg.shadow.neglook_group_checks,
+            "backreference_and_condition_reads_checked_against_the_state": agg.shadow.capture_reads_checked,
             "vm_max_branch_depth": agg.shadow.max_depth,
             "vm_max_aux_depth": agg.shadow.max_aux,
             "vm_runs_where_model_was_capped_by_depth": agg.shadow.model_capped,
